@@ -174,6 +174,7 @@ type Cluster struct {
 	GossipSent int64
 	// gossip withheld from a node (HoldGossipFor), in arrival order
 	held        map[uint64][][]byte
+	holdIf      map[uint64]func([]byte) bool
 	unreachKind int64
 	// replies still to be lost per callee (LoseReplies)
 	loseReply map[uint64]int
@@ -530,6 +531,9 @@ func (c *Cluster) PumpOnce() int {
 				if m != n {
 					c.mu.Lock()
 					_, holding := c.held[m.ID]
+					if holding && c.holdIf != nil && c.holdIf[m.ID] != nil && !c.holdIf[m.ID](b) {
+						holding = false // a selective hold that lets this payload through
+					}
 					if holding {
 						c.held[m.ID] = append(c.held[m.ID], b)
 					}
@@ -594,6 +598,37 @@ func (c *Cluster) HoldGossipFor(id uint64) {
 		c.held[id] = [][]byte{}
 	}
 	c.mu.Unlock()
+}
+
+// HoldGossipIf is HoldGossipFor restricted to the payloads for which pred is true (gossip in which
+// some messages are slower than others); the rest is delivered as usual.
+func (c *Cluster) HoldGossipIf(id uint64, pred func(payload []byte) bool) {
+	c.HoldGossipFor(id)
+	c.mu.Lock()
+	if c.holdIf == nil {
+		c.holdIf = map[uint64]func([]byte) bool{}
+	}
+	c.holdIf[id] = pred
+	c.mu.Unlock()
+}
+
+// ReleaseGossip delivers what was withheld from node id, oldest first, and ends the hold.
+func (c *Cluster) ReleaseGossip(id uint64) int {
+	c.mu.Lock()
+	bs := c.held[id]
+	delete(c.held, id)
+	if c.holdIf != nil {
+		delete(c.holdIf, id)
+	}
+	n := c.Nodes[id]
+	c.mu.Unlock()
+	if n == nil {
+		return 0
+	}
+	for _, b := range bs {
+		n.State.Distributor().NotifyMsg(b)
+	}
+	return len(bs)
 }
 
 // ReleaseGossipReversed delivers what was withheld from node id, newest first.
